@@ -86,7 +86,7 @@ pub fn enc_dec_coupling_step() {
 fn pending_value(cache: u8, cachesz: u32) -> u64 {
     let mut v = cache as u64;
     let mut i = 1;
-    while i < 4 {
+    while i < 7 {
         if i < cachesz {
             v = (v << 8) | 0xFF;
         }
@@ -96,7 +96,7 @@ fn pending_value(cache: u8, cachesz: u32) -> u64 {
 }
 
 //@ harness props=C04,C12 tier=quick unwind=8 mem_gb=4 timeout=900
-//@ bound: carry/cache lemma: ONE real write_low from every (low<2^33, cache, cachesz in 1..=3): emitted bytes and the new pending bytes represent the same number shifted by one byte
+//@ bound: carry/cache lemma: ONE real write_low from every (low<2^33, cache, cachesz in 1..=6): emitted bytes and the new pending bytes represent the same number shifted by one byte
 #[cfg_attr(kani, kani::proof)]
 #[cfg_attr(kani, kani::stub(std::fmt::format, crate::verif_common::stub_format))]
 #[cfg_attr(kani, kani::stub(std::io::Error::is_interrupted, crate::verif_common::stub_not_interrupted))]
@@ -104,7 +104,7 @@ pub fn enc_write_low_step() {
     let mut t = Tape::<24>::new();
     let low = t.u64();
     let cache = t.u8();
-    let cachesz = 1 + (t.u8() % 3) as u32;
+    let cachesz = 1 + (t.u8() % 6) as u32;
     assume(low < (1u64 << 33));
     // reachable states: a carry never meets an all-ones pending run (cache == 0xFF with carry
     // would need low + range to exceed the interval the pending bytes stand for)
@@ -126,7 +126,7 @@ pub fn enc_write_low_step() {
         // emitted bytes = big-endian (pending + carry), cachesz bytes
         let pv = pending_value(cache, cachesz) + carry;
         let mut i = 0;
-        while i < 3 {
+        while i < 6 {
             if i < cachesz as usize {
                 let shift = 8 * (cachesz as usize - 1 - i);
                 vassert!(sink.buf[i] == ((pv >> shift) & 0xFF) as u8, "write_low: emitted bytes are the pending bytes plus the carry");
@@ -134,7 +134,7 @@ pub fn enc_write_low_step() {
             i += 1;
         }
         vassert!(n_cache == ((low >> 24) & 0xFF) as u8 && n_cachesz == 1, "write_low: new pending byte is bits 24..31 of low");
-        vcover!(carry == 1 && cachesz == 3, "carry_through_ff_run");
+        vcover!(carry == 1 && cachesz == 6, "carry_through_ff_run");
     } else {
         vassert!(sink.len == 0 && sink.writes == 0, "write_low: nothing emitted while a carry may still arrive");
         vassert!(n_cache == cache && n_cachesz == cachesz + 1, "write_low: the 0xFF byte joins the pending run");
